@@ -46,7 +46,7 @@ ASSUMES = [
     "screen-column width of a content row is computed by vmon.models.grid (wcwidth tables for utf8; bytes for euc-jp / ascii), independent of urwid.str_util",
     "for inner widgets rows()/pack() are evaluated by the monitor right after render (before the canvas is cached); for the root they are evaluated before render with the cache cleared",
     "a failure inside a widget that a bundled class builds internally (Button's Columns, LineBox's Pile, GridFlow's Pile ...) is attributed to that bundled class (taken from the structure of the tree)",
-    "signature = C01|blamed class|failure kind + raise site, or violated clause|size class of the size the blamed widget was handed (fixed / tiny: a dimension <= 3 / ordinary); an exception raised by a widget that had itself been handed a size outside the domain is grouped as the blamed parent's 'hands-child:size<1' or 'hands-child:mode-not-reported', whatever the child raised",
+    "signature = C01|blamed class|failure kind + raise site, or violated clause (the size class of the size the blamed widget was handed -- fixed / tiny: a dimension <= 3 / ordinary -- is reported in the message only); an exception raised by a widget that had itself been handed a size outside the domain is grouped as the blamed parent's 'hands-child:size<1' or 'hands-child:mode-not-reported', whatever the child raised",
     "every evaluation uses a freshly built tree and a cleared CanvasCache: state left behind by earlier renders is the business of C06/C07/C20, not of this check",
     "weights are positive; given sizes are >= 1; empty Pile / Columns / GridFlow / ListBox are included (documented special case)",
 ]
@@ -237,6 +237,14 @@ def evaluate(env, w, reg, size, focus):
             detail = got[2]
     if got is None:
         owner, blamed = (w, size, focus, None), (w, size, focus, None)
+        if chain:
+            # nothing in the call chain is inside the domain by its own sizing() (typically widgets built internally by a
+            # bundled class whose sizing() is derived from them): blame the recipe-level widget that structurally owns the
+            # innermost failing widget, at the size its outermost internal widget was handed
+            so = structural_owner(reg, chain[0][0])
+            sized = [(cs, cf) for cw, cs, cf, _q in chain if structural_owner(reg, cw) is so or cw is so]
+            if so is not None and sized:
+                owner = blamed = (so, sized[-1][0], sized[-1][1], None)
     else:
         owner, blamed = got[0], got[1]
     ow, osize, ofocus, oqual = owner
@@ -457,21 +465,28 @@ def shrink(env, recipe, f, budget=300):
 
 
 def mech_kind(f):
-    """failure kind + raise site (raise kinds) or violated clause (others); the phase marker @rows()/@pack() is dropped
-    when a raise site is present (the site names the mechanism), @content() is kept (no site)"""
+    """failure kind + raise site (raise kinds) or violated clause (others).  The phase marker @rows()/@pack() is dropped
+    when a raise site is present, @content() is kept (no site).  For AttributeError the site is the missing attribute
+    ('BigText' object has no attribute 'rows' -> attr:rows) rather than the function that happened to touch it."""
     k = f.kind
     if k.startswith("raise:") and "/" in k:
         head, site = k.rsplit("/", 1)
         head = head.split("@")[0]
+        if head == "raise:AttributeError":
+            m = re.search(r"has no attribute '(\w+)'", f.msg)
+            if m:
+                site = "attr:" + m.group(1)
         return f"{head}/{site}"
     return k
 
 
 def signature(env, recipe, f, sclass=None):
-    """C01|<blamed class>|<failure kind + raise site or clause>|<size class>  -- one line per mechanism.
+    """C01|<blamed class>|<failure kind + raise site or clause>  -- one line per mechanism.
     Everything in it is read off the raw finding (class whose method failed, clause / exception type + function that
-    raised, size class of the size that widget was handed), so it does not depend on how far the witness was shrunk."""
-    return f"C01|{f.cls}|{mech_kind(f)}|{f.bucket}"
+    raised), so it does not depend on how far the witness was shrunk.  The size class of the size the blamed widget was
+    handed (fixed / tiny: a dimension <= 3 / ordinary) is reported in the message, not in the signature: with it every
+    mechanism needed two or three lines and held-out seeds kept surfacing the missing variant."""
+    return f"C01|{f.cls}|{mech_kind(f)}"
 
 
 def prekey(env, recipe, f):
@@ -491,7 +506,7 @@ def report(env, recipe, f, history=()):
         + "".join(f"w.render({tuple(s)!r}, {fo}); " for s, fo in history).join(["w = " + T.to_code(recipe) + "; ", ""])
         + "w." + call.format(f.root_focus, tuple(f.root_size))
     )
-    ctx.violation(sig, f"{f.msg}\n  blamed: {f.cls} at path {list(f.path)} handed {f.size!r} focus={f.focus}\n  shape: {T.describe(recipe, 4, True, env.mode)}\n  replay: {standalone}", wit)
+    ctx.violation(sig, f"[{f.bucket} size] {f.msg}\n  blamed: {f.cls} at path {list(f.path)} handed {f.size!r} focus={f.focus}\n  shape: {T.describe(recipe, 4, True, env.mode)}\n  replay: {standalone}", wit)
     return sig
 
 
